@@ -442,11 +442,19 @@ impl IoLoop {
                     self.inner.write_to_stream(stream)?;
                 }
                 if event.readiness().is_readable() {
-                    self.inner.read_from_stream(
+                    let result = self.inner.read_from_stream(
                         stream,
                         &mut self.frame_buffer,
                         |inner, frame| state.process(inner, frame),
-                    )?;
+                    );
+                    match result {
+                        // The server is free to close the socket right after its CloseOk;
+                        // if that EOF shows up in the same read, the close handshake is
+                        // already complete and this is not an error.
+                        Err(Error::UnexpectedSocketClose)
+                            if matches!(state, ConnectionState::ClientClosed) => {}
+                        other => other?,
+                    }
                 }
             }
             HEARTBEAT => self.inner.process_heartbeat_timers()?,
